@@ -56,6 +56,8 @@ def run(ctx):
     bad = []
     monos = F.monolayers()
     adaptive_records = []
+    assemble_records, assemble_errors = [], []
+    import assemble_model
     # the listed known findings are re-examined first, on their recorded inputs (a finding that still fails prints its
     # KNOWN-FINDING line on every run; one that no longer fails is only noted)
     extra_inputs = []
@@ -143,6 +145,9 @@ def run(ctx):
                 clusters = SBC().get_clusters(a, seed=seed)
             if len(adaptive_records) < 500:
                 adaptive_records.extend(prec.adaptive[:30])
+            if len(assemble_records) < ctx.n(80, 600):
+                assemble_records.extend(prec.assemble[:4])
+                assemble_errors.extend(prec.assemble_errors)
             big = max(clusters, key=lambda c: len(c.indices))
             cell = big.get_cell()
             got = analysis(cell, tol)
@@ -181,6 +186,7 @@ def run(ctx):
                     {"kind": "failing-input", "case": b, "how": "SBC().get_clusters(atoms, seed=seed)[largest].get_cell() -> SymmetryAnalyzer(cell, symmetry_tol)"})
     import finder_helpers
     finder_helpers.check(ctx, broken, adaptive_records)
+    assemble_model.check(ctx, broken, assemble_records, assemble_errors)
     if broken and not ctx.unknown_findings():
         ctx.finding("unproved", "theorem no longer checks, no failing crystal found", {"kind": "broken-obligation", "broken": broken}, found_input=False)
     ctx.coverage["broken"] = [{"what": k_, "info": i} for k_, i in broken]
